@@ -70,16 +70,20 @@ theorem aliases_get {d : Dim} {i : Nat} (h : i < d.size) : d.aliases[i]? = some 
 theorem eids_get {d : Dim} {i : Nat} (h : i < d.size) : d.eids[i]? = some (item d i).eid := by
   simp [Dim.eids, items_get h]
 
-theorem subvarIds_get {d : Dim} {i : Nat} (h : i < d.size) :
+theorem subvarIds_get {d : Dim} {i : Nat} (hns : d.noSubvarIds = false) (h : i < d.size) :
     d.subvarIds[i]? = some (item d i).subvarId := by
-  simp [Dim.subvarIds, items_get h]
+  simp [Dim.subvarIds, hns, items_get h]
+
+theorem subvarIds_nil {d : Dim} (hns : d.noSubvarIds = true) : d.subvarIds = [] := by
+  simp [Dim.subvarIds, hns]
 
 theorem aliasAt_lt {d : Dim} {i : Nat} (h : i < d.size) : aliasAt d i = some (item d i).alias :=
   aliases_get h
 
 theorem size_aliases (d : Dim) : d.aliases.length = d.size := by simp [Dim.aliases, Dim.size]
 theorem size_eids (d : Dim) : d.eids.length = d.size := by simp [Dim.eids, Dim.size]
-theorem size_subvarIds (d : Dim) : d.subvarIds.length = d.size := by simp [Dim.subvarIds, Dim.size]
+theorem size_subvarIds {d : Dim} (hns : d.noSubvarIds = false) : d.subvarIds.length = d.size := by
+  simp [Dim.subvarIds, hns, Dim.size]
 
 theorem mem_items_idx {d : Dim} {it : Item} (h : it ∈ d.items) : ∃ j, j < d.size ∧ item d j = it := by
   obtain ⟨j, hj, hget⟩ := List.getElem_of_mem h
@@ -115,8 +119,9 @@ theorem eid_mem {d : Dim} {j : Nat} (h : j < d.size) : (item d j).eid ∈ d.eids
 theorem alias_mem {d : Dim} {j : Nat} (h : j < d.size) : (item d j).alias ∈ d.aliases :=
   List.mem_of_getElem? (aliases_get h)
 
-theorem subvarId_mem {d : Dim} {j : Nat} (h : j < d.size) : (item d j).subvarId ∈ d.subvarIds :=
-  List.mem_of_getElem? (subvarIds_get h)
+theorem subvarId_mem {d : Dim} {j : Nat} (hns : d.noSubvarIds = false) (h : j < d.size) :
+    (item d j).subvarId ∈ d.subvarIds :=
+  List.mem_of_getElem? (subvarIds_get hns h)
 
 theorem mem_aliases_idx {d : Dim} {s : String} (h : s ∈ d.aliases) :
     ∃ j, j < d.size ∧ (item d j).alias = s := by
@@ -138,7 +143,7 @@ open CrCube.ShimSpec
 def Den (d : Dim) (r : Ref) (j : Nat) : Prop := j < d.size ∧ denotesAt d r j = true
 
 theorem denotesAt_iff {d : Dim} {r : Ref} {j : Nat} (hj : j < d.size) :
-    denotesAt d r j = true ↔ (r ∈ spellings (item d j) ∨ positionOf d r = some j) := by
+    denotesAt d r j = true ↔ (r ∈ spellings d (item d j) ∨ positionOf d r = some j) := by
   simp [denotesAt, items_get hj]
 
 theorem mem_denotes {d : Dim} {r : Ref} {j : Nat} : j ∈ denotes d r ↔ Den d r j := by
@@ -186,7 +191,7 @@ theorem rule1_sound {d : Dim} {r : Ref} {a : String} (h : rule1 d r = some a) :
     · simp [hs] at h
       subst h
       obtain ⟨j, hj, hja⟩ := mem_aliases_idx hs
-      exact ⟨j, ⟨hj, (denotesAt_iff hj).mpr (Or.inl (by simp [spellings, hja]))⟩, hja⟩
+      exact ⟨j, ⟨hj, (denotesAt_iff hj).mpr (Or.inl (mem_spellings.mpr (Or.inl (by rw [hja]))))⟩, hja⟩
     · simp [hs] at h
   | int n => simp [rule1] at h
   | null => simp [rule1] at h
@@ -199,7 +204,7 @@ theorem rule2_sound {d : Dim} {r : Ref} {a : String} (h : rule2 d r = some a) :
   cases r with
   | int n =>
     obtain ⟨j, hj, he, ha⟩ := byEid_some (by simpa [rule2] using h)
-    exact ⟨j, ⟨hj, (denotesAt_iff hj).mpr (Or.inl (by simp [spellings, he]))⟩, ha⟩
+    exact ⟨j, ⟨hj, (denotesAt_iff hj).mpr (Or.inl (mem_spellings.mpr (Or.inr (Or.inl (by rw [he])))))⟩, ha⟩
   | str s => simp [rule2] at h
   | null => simp [rule2] at h
 
@@ -220,7 +225,7 @@ theorem rule3_sound {d : Dim} {r : Ref} {a : String} (h : rule3 d r = some a) :
         obtain ⟨j, hj, he, ha⟩ := byEid_some h
         refine ⟨j, ⟨hj, (denotesAt_iff hj).mpr (Or.inl ?_)⟩, ha⟩
         have : decStr (item d j).eid = s := by rw [he]; simpa using hp
-        simp [spellings, this]
+        exact mem_spellings.mpr (Or.inr (Or.inr (Or.inl (by rw [this]))))
     · simp [hm] at h
   | int n => simp [rule3] at h
   | null => simp [rule3] at h
@@ -230,22 +235,29 @@ theorem rule4_sound {d : Dim} {r : Ref} {a : String} (h : rule4 d r = some a) :
   cases r with
   | str s =>
     simp only [rule4] at h
+    cases hns : d.noSubvarIds with
+    | true => simp [subvarIds_nil hns, idxOf] at h
+    | false =>
     cases hi : idxOf s d.subvarIds with
     | none => simp [hi] at h
     | some j =>
-      have hj : j < d.size := by simpa [size_subvarIds] using idxOf_lt hi
+      have hj : j < d.size := by simpa [size_subvarIds hns] using idxOf_lt hi
       have hg := idxOf_some_get hi
-      rw [subvarIds_get hj] at hg
+      rw [subvarIds_get hns hj] at hg
       simp only [hi, Option.bind_some, aliasAt_lt hj] at h
       refine ⟨j, ⟨hj, (denotesAt_iff hj).mpr (Or.inl ?_)⟩, by simpa using h⟩
       have : (item d j).subvarId = s := by simpa using hg
-      simp [spellings, this]
+      exact mem_spellings.mpr (Or.inr (Or.inr (Or.inr ⟨hns, by rw [this]⟩)))
   | int n => simp [rule4] at h
   | null => simp [rule4] at h
 
 theorem rule4_str {d : Dim} {s : String} (hs : s ∈ d.subvarIds) : ∃ a, rule4 d (.str s) = some a := by
   obtain ⟨i, hi⟩ := idxOf_isSome_of_mem hs
-  have hj : i < d.size := by simpa [size_subvarIds] using idxOf_lt hi
+  have hns : d.noSubvarIds = false := by
+    cases h : d.noSubvarIds with
+    | false => rfl
+    | true => simp [subvarIds_nil h] at hs
+  have hj : i < d.size := by simpa [size_subvarIds hns] using idxOf_lt hi
   exact ⟨(item d i).alias, by simp [rule4, hi, aliasAt_lt hj]⟩
 
 /-! ### numbers -/
@@ -321,7 +333,9 @@ theorem rule5_sound {d : Dim} {r : Ref} {a : String} (h : rule5 d r = some a)
     simp only [hn, Option.bind_some] at h
     obtain ⟨j, hj, he, ha⟩ := byEid_some h
     refine ⟨j, ⟨hj, (denotesAt_iff hj).mpr (Or.inl ?_)⟩, ha⟩
-    rcases canon_spelling (canon_of_asInt hn hc) with hr | hr <;> simp [spellings, hr, he]
+    rcases canon_spelling (canon_of_asInt hn hc) with hr | hr
+    · exact mem_spellings.mpr (Or.inr (Or.inl (by rw [hr, he])))
+    · exact mem_spellings.mpr (Or.inr (Or.inr (Or.inl (by rw [hr, he]))))
 
 theorem rule6_some {d : Dim} {r : Ref} {a : String} (h : rule6 d r = some a) :
     ∃ n : Int, asInt r = some n ∧ 0 ≤ n ∧ n < (d.size : Int) ∧ (item d n.toNat).alias = a := by
